@@ -2,7 +2,7 @@
    re-opening every prefix gave, compared with the model (Node/Crash.v, Node/Stages.v). *)
 From NG Require Import Common.Tactics Common.HarnessLib.
 From NG Require Export Node.Crash Node.Stages Node.CrashGC.
-From NG Require Import Node.ResetPages.
+From NG Require Node.ResetPages.
 Open Scope N_scope.
 
 (* observed values: payloads are opaque *)
@@ -388,6 +388,6 @@ Definition check_case (c : case) : N :=
   | CStorageSync _ obs recov => check_storage_sync obs recov
   | CBackend failed eff applied => check_backend failed eff applied
   | CResetPages ps c h pages =>
-      let m := list_eqb N.eqb pages (pages_after ps h) in
-      code_of m (match previous ps h with Some f => existsb (N.eqb f) pages | None => true end)
+      let m := list_eqb N.eqb pages (ResetPages.pages_after ps h) in
+      code_of m (match ResetPages.previous ps h with Some f => existsb (N.eqb f) pages | None => true end)
   end.
